@@ -265,7 +265,7 @@ PROPS["C18"] = {
                   "New->Gathering->Complete, refused second call, exactly one nil; Restart racing a running cycle. "
                   "Also the local candidates created OUTSIDE a gathering cycle: on the real loopback interface a remote ICE-TCP passive candidate is added under candidate types {host, srflx, relay, host+srflx, srflx+relay, default} x network types x DisableActiveTCP, "
                   "and every candidate then published or listed (the active TCP host candidates) must be of an enabled candidate and network type.",
-    "level_note": "Relay and TCP-mux gathering are exercised under C09, not here. Completeness is asserted for UDP host candidates the agent listens for itself (no mux, mDNS not in gather mode).",
+    "level_note": "Relay gathering is exercised under C09, not here. Completeness is asserted for UDP host candidates the agent listens for itself (no UDP mux, mDNS not in gather mode) and for passive TCP host candidates lent by a (fake) TCP mux, also when the UDP mux was closed before gathering.",
     "rule": "case = one configuration x one gather cycle; distinct_nontrivial counts distinct (types, network types, port range, filters, loopback, effective mDNS, mux, #eligible, #published) classes",
     "assumptions": ["effective mDNS mode is read from the agent after construction (opportunistic mDNS may fall back to disabled)"],
 }
